@@ -1,4 +1,5 @@
 import Rare.Model.Expr.Std
+import Rare.Model.C09Utf8
 /-!
 User-defined functions (`pkg/expressions/funcfile`): the definitions-file loader and
 `keyBuilderToFunction` / `lazySubContext`.
@@ -23,26 +24,88 @@ def withArgs {α : Type} (args : List Stage) : Comp α → Comp α
 def userFunction (body : List Stage) : Builder := fun args =>
   .ok ⟨some (withArgs args (buildKey body)), none⟩
 
+/-- The context a function body sees: `{i}` is the value of the call's `i`-th argument in the caller's
+    match, a missing argument is empty, named keys (and negative indices) are the caller's. -/
+def argCtx (ctx : Ctx) (nargs : Nat) (vals : List Bytes) : Ctx :=
+  { getMatch := fun i => if i < 0 then ctx.getMatch i else if i ≥ nargs then [] else vals.getD i.toNat [],
+    getKey := ctx.getKey }
+
 /-! ### the definitions file -/
 
 def trimAfterHash (l : Bytes) : Bytes := l.takeWhile (· ≠ 35)
 
-def trimRightSpace (l : Bytes) : Bytes := (l.reverse.dropWhile isAsciiSpace).reverse
-def trimSpaceAscii (l : Bytes) : Bytes := trimRightSpace (l.dropWhile isAsciiSpace)
+/-- Length of the white-space rune (`unicode.IsSpace`) encoded at the head of `s`, 0 when there is none. -/
+def spaceLenFront (s : Bytes) : Nat :=
+  match s with
+  | [] => 0
+  | b :: _ =>
+    if isAsciiSpace b then 1
+    else match s with
+      | 0xC2 :: 0x85 :: _ => 2
+      | 0xC2 :: 0xA0 :: _ => 2
+      | 0xE1 :: 0x9A :: 0x80 :: _ => 3
+      | 0xE2 :: 0x80 :: x :: _ =>
+        if (0x80 ≤ x && x ≤ 0x8A) || x == 0xA8 || x == 0xA9 || x == 0xAF then 3 else 0
+      | 0xE2 :: 0x81 :: 0x9F :: _ => 3
+      | 0xE3 :: 0x80 :: 0x80 :: _ => 3
+      | _ => 0
 
-/-- `bufio.Scanner` lines: split at `\n`, one trailing `\r` dropped, no final empty line. -/
+/-- The same at the END of a string, given REVERSED (`utf8.DecodeLastRuneInString`: the lead byte of each of
+    these encodings is a start byte, so a match of the last 1/2/3 bytes is the last rune). -/
+def spaceLenBack (rev : Bytes) : Nat :=
+  match rev with
+  | [] => 0
+  | b :: _ =>
+    if isAsciiSpace b then 1
+    else match rev with
+      | 0x85 :: 0xC2 :: _ => 2
+      | 0xA0 :: 0xC2 :: _ => 2
+      | 0x80 :: 0x9A :: 0xE1 :: _ => 3
+      | x :: 0x80 :: 0xE2 :: _ =>
+        if (0x80 ≤ x && x ≤ 0x8A) || x == 0xA8 || x == 0xA9 || x == 0xAF then 3 else 0
+      | 0x9F :: 0x81 :: 0xE2 :: _ => 3
+      | 0x80 :: 0x80 :: 0xE3 :: _ => 3
+      | _ => 0
+
+def trimFront : Nat → Bytes → Bytes
+  | 0, s => s
+  | f + 1, s => match spaceLenFront s with
+    | 0 => s
+    | k => trimFront f (s.drop k)
+
+def trimBackRev : Nat → Bytes → Bytes
+  | 0, s => s
+  | f + 1, s => match spaceLenBack s with
+    | 0 => s
+    | k => trimBackRev f (s.drop k)
+
+/-- `strings.TrimSpace`: leading and trailing runes with the Unicode `White_Space` property (ASCII blanks,
+    NEL, NBSP, U+1680, U+2000–200A, U+2028/9, U+202F, U+205F, U+3000) are removed; interior ones stay. -/
+def trimSpaceGo (l : Bytes) : Bytes :=
+  let a := trimFront l.length l
+  (trimBackRev a.length a.reverse).reverse
+
+/-- `bufio.MaxScanTokenSize`: a line of this many bytes (before its `\n`) or more does not fit the scanner's
+    buffer; `Scan()` then answers false and the rest of the file is silently ignored. -/
+def maxLine : Nat := 65536
+
+/-- `bufio.Scanner` lines: split at `\n`, one trailing `\r` dropped, no final empty line; stops at a line
+    that does not fit the buffer. -/
 def scanLines (text : Bytes) : List Bytes :=
-  let rec go (cur : Bytes) : Bytes → List Bytes
-    | [] => if cur.isEmpty then [] else [cur]
-    | b :: r => if b = 10 then (if cur.getLast? = some 13 then cur.dropLast else cur) :: go [] r else go (cur ++ [b]) r
-  go [] text
+  let rec go (cur : Bytes) (n : Nat) : Bytes → List Bytes
+    | [] => if cur.isEmpty then [] else [if cur.getLast? = some 13 then cur.dropLast else cur]
+    | b :: r =>
+      if b = 10 then (if cur.getLast? = some 13 then cur.dropLast else cur) :: go [] 0 r
+      else if n + 1 ≥ maxLine then []
+      else go (cur ++ [b]) (n + 1) r
+  go [] 0 text
 
 /-- The multi-line joiner of `LoadDefinitions`: returns the phrases in file order.
     `sb` = text accumulated for the phrase under construction, `open_` = a continuation is pending. -/
 def joinPhrases : List Bytes → Bytes → List Bytes
   | [], sb => if sb.isEmpty then [] else [sb]
   | l :: rest, sb =>
-    let line := trimSpaceAscii (trimAfterHash l)
+    let line := trimSpaceGo (trimAfterHash l)
     if line.isEmpty then joinPhrases rest sb
     else if line.getLast? = some 92 then joinPhrases rest (sb ++ line.dropLast)
     else
@@ -57,30 +120,34 @@ def splitName : Bytes → Option (Bytes × Bytes)
 
 def parseDefs (text : Bytes) : List (Option (Bytes × Bytes)) := (joinPhrases (scanLines text) []).map splitName
 
-def bytesToChars (b : Bytes) : Option (List Char) :=
-  (String.fromUTF8? (ByteArray.mk b.toArray)).map String.toList
-
 /-- Extend a registry with one more function (later definitions shadow earlier ones and builtins). -/
 def extend (reg : Registry) (name : List Char) (b : Builder) : Registry := fun n => if n = name then some b else reg n
 
 /-- `LoadDefinitions` over a compiler that optimises (main.go uses `funclib.NewKeyBuilder()`):
-    returns the compiler's registry after all definitions and the list of added functions (in order). -/
+    returns the compiler's registry after all definitions and the list of added functions (in order).
+
+    * The expression is a Go string handed to `Compile`: decoded like `[]rune(s)` (`C09.compileBytes`; an
+      invalid byte is U+FFFD).
+    * `createAndAddFunc` compiles FIRST and registers AFTER: the body sees the builtins and the definitions
+      before it – never itself, never a later one; an unknown name is `ErrorMissingFunction`, hence a compile
+      error, hence "logged, not added" (recursion and forward references are rejected this way).
+    * The name is registered as the raw byte string (`compiler.Func(name, fnc)`); a call site spells names in
+      runes (`string(runes)`), so a name that is not well-formed UTF-8 can never be called: it is compiled
+      (a panicking builder still panics) but not added. -/
 def loadDefs (reg : Registry) : List (Option (Bytes × Bytes)) → Except String (Registry × List (List Char × Builder))
   | [] => .ok (reg, [])
   | none :: rest => loadDefs reg rest                      -- "Missing expression": skipped
   | some (name, expr) :: rest =>
-    match bytesToChars name, bytesToChars expr with
-    | some n, some e =>
-      match compile reg true e with
-      | .error m => .error m
-      | .ok (stages, errs) =>
-        if errs.isEmpty then
-          let f := userFunction stages
-          match loadDefs (extend reg n f) rest with
-          | .error m => .error m
-          | .ok (r, fs) => .ok (r, (n, f) :: fs)
-        else loadDefs reg rest                              -- compile error: logged, not added
-    | _, _ => .error "unmodelled:non-utf8 definition"
+    match Rare.C09.compileBytes reg true expr with
+    | .error m => .error m
+    | .ok (stages, errs) =>
+      if errs.isEmpty && Rare.C09.wellFormed name then
+        let n := Rare.C09.decodeRunes name
+        let f := userFunction stages
+        match loadDefs (extend reg n f) rest with
+        | .error m => .error m
+        | .ok (r, fs) => .ok (r, (n, f) :: fs)
+      else loadDefs reg rest                                -- compile error: logged, not added
 
 /-- The registry the CLI evaluates with after `--funcs file`: builtins plus the loaded functions. -/
 def withFuncs (base : Registry) (fs : List (List Char × Builder)) : Registry :=
